@@ -105,13 +105,15 @@ theorem digest_perm_deps (H : Bytes → Digest) (b : Bucket) (d₁ d₂ : List M
 def NoCollision (H : Bytes → Digest) (S : List Bytes) : Prop :=
   ∀ x ∈ S, ∀ y ∈ S, H x = H y → x = y
 
-/-- SENSITIVITY.  If H does not collide on the byte strings the two computations hash (module
+/-- SENSITIVITY (the statement with the weakest newline hypothesis: only the MODULE files' paths
+    must be free of U+000A — non-module files never reach the manifest).  If H does not collide on
+    the byte strings the two computations hash (module
     file contents, the two manifest texts, the two final preimages), equal b5 digests force
     equal module-file sets and equal dependency-digest multisets.  Contrapositive: any change
     of a byte or of a path of a module file, any added or removed module file, any changed,
     added or removed dependency digest changes the digest. -/
-theorem digest_sensitive (H : Bytes → Digest) (b₁ b₂ : Bucket) (d₁ d₂ : List MDigest)
-    (h1 : BucketOK b₁) (h2 : BucketOK b₂) (n1 : NoNewline b₁) (n2 : NoNewline b₂)
+theorem digest_sensitive_module_files (H : Bytes → Digest) (b₁ b₂ : Bucket) (d₁ d₂ : List MDigest)
+    (h1 : BucketOK b₁) (h2 : BucketOK b₂) (n1 : NoNewline (filterModule b₁)) (n2 : NoNewline (filterModule b₂))
     (hd1 : d₁.all (fun d => d.type = .b5) = true) (hd2 : d₂.all (fun d => d.type = .b5) = true)
     (hH : NoCollision H (b5Inputs H b₁ d₁ ++ b5Inputs H b₂ d₂))
     (heq : moduleB5 H b₁ d₁ = moduleB5 H b₂ d₂) :
@@ -164,12 +166,12 @@ theorem digest_sensitive (H : Bytes → Digest) (b₁ b₂ : Bucket) (d₁ d₂ 
   have htext := utf8_inj (hH _ (in1 _ mT1) _ (in2 _ mT2) hfd)
   have pm1 := sortBy_perm pathLe (nodesOf H (filterModule b₁))
   have pm2 := sortBy_perm pathLe (nodesOf H (filterModule b₂))
-  have nodeProps : ∀ (b : Bucket), BucketOK (filterModule b) → NoNewline b →
+  have nodeProps : ∀ (b : Bucket), BucketOK (filterModule b) → NoNewline (filterModule b) →
       ∀ n ∈ sortBy pathLe (nodesOf H (filterModule b)), validateNodePath n.path = .ok () ∧ '\n' ∉ n.path := by
     intro b fb nb n hn
     have hn' := (sortBy_perm pathLe _).subset hn
     rcases List.mem_map.mp hn' with ⟨e, he, rfl⟩
-    exact ⟨fb.2 e he, nb.filter e he⟩
+    exact ⟨fb.2 e he, nb e he⟩
   have hman : moduleManifest H b₁ = moduleManifest H b₂ :=
     manifestString_inj
       (sortBy_canonical _ (by rw [nodesOf_paths]; exact f1.1))
@@ -198,6 +200,16 @@ theorem digest_sensitive (H : Bytes → Digest) (b₁ b₂ : Bucket) (d₁ d₂ 
       (sortBy_perm strLe _).symm.trans (hdeps ▸ sortBy_perm strLe _)
     exact perm_of_map_perm mdigestString (fun a b => mdigestString_inj) d₁ d₂ hp
 
+/-- `digest_sensitive_module_files` with the newline hypothesis on the whole bucket (the form C09
+    uses). -/
+theorem digest_sensitive (H : Bytes → Digest) (b₁ b₂ : Bucket) (d₁ d₂ : List MDigest)
+    (h1 : BucketOK b₁) (h2 : BucketOK b₂) (n1 : NoNewline b₁) (n2 : NoNewline b₂)
+    (hd1 : d₁.all (fun d => d.type = .b5) = true) (hd2 : d₂.all (fun d => d.type = .b5) = true)
+    (hH : NoCollision H (b5Inputs H b₁ d₁ ++ b5Inputs H b₂ d₂))
+    (heq : moduleB5 H b₁ d₁ = moduleB5 H b₂ d₂) :
+    (∀ e, e ∈ filterModule b₁ ↔ e ∈ filterModule b₂) ∧ d₁.Perm d₂ :=
+  digest_sensitive_module_files H b₁ b₂ d₁ d₂ h1 h2 n1.filter n2.filter hd1 hd2 hH heq
+
 /-- Same statement, contrapositive reading used in the property text: different module-file
     sets or different dependency-digest multisets give different digests. -/
 theorem digest_changes (H : Bytes → Digest) (b₁ b₂ : Bucket) (d₁ d₂ : List MDigest)
@@ -208,6 +220,19 @@ theorem digest_changes (H : Bytes → Digest) (b₁ b₂ : Bucket) (d₁ d₂ : 
     moduleB5 H b₁ d₁ ≠ moduleB5 H b₂ d₂ := by
   intro heq
   have := digest_sensitive H b₁ b₂ d₁ d₂ h1 h2 n1 n2 hd1 hd2 hH heq
+  rcases hdiff with ⟨e, he⟩ | hp
+  · exact he (this.1 e)
+  · exact hp this.2
+
+/-- `digest_changes` with the newline hypothesis on the module files only. -/
+theorem digest_changes_module_files (H : Bytes → Digest) (b₁ b₂ : Bucket) (d₁ d₂ : List MDigest)
+    (h1 : BucketOK b₁) (h2 : BucketOK b₂) (n1 : NoNewline (filterModule b₁)) (n2 : NoNewline (filterModule b₂))
+    (hd1 : d₁.all (fun d => d.type = .b5) = true) (hd2 : d₂.all (fun d => d.type = .b5) = true)
+    (hH : NoCollision H (b5Inputs H b₁ d₁ ++ b5Inputs H b₂ d₂))
+    (hdiff : (∃ e, ¬ (e ∈ filterModule b₁ ↔ e ∈ filterModule b₂)) ∨ ¬ d₁.Perm d₂) :
+    moduleB5 H b₁ d₁ ≠ moduleB5 H b₂ d₂ := by
+  intro heq
+  have := digest_sensitive_module_files H b₁ b₂ d₁ d₂ h1 h2 n1 n2 hd1 hd2 hH heq
   rcases hdiff with ⟨e, he⟩ | hp
   · exact he (this.1 e)
   · exact hp this.2
@@ -242,6 +267,49 @@ theorem moduleDigest_fuel (H : Bytes → Digest) (ms : List Mod)
       · have hl' : m.isLocal = false := by simpa using hl
         simp only [hl']
         rfl
+
+/-- Fuel suffices for ANY numbering of an acyclic module set: acyclicity is witnessed by a rank
+    function that decreases along the resolved dependencies of local modules (no relation
+    between rank and index is assumed).  The digest of module `i` is the same for every
+    fuel > rank i.  `moduleDigest_fuel` is the instance `rank = id`. -/
+theorem moduleDigest_fuel_any_numbering (H : Bytes → Digest) (ms : List Mod) (rank : Nat → Nat)
+    (hacyc : ∀ (i : Nat) (m : Mod), ms[i]? = some m → m.isLocal = true → ∀ j ∈ m.deps, rank j < rank i) :
+    ∀ i fuel, rank i < fuel → moduleDigest H ms fuel i = moduleDigest H ms (rank i + 1) i := by
+  have key : ∀ r i, rank i = r → ∀ fuel, r < fuel → moduleDigest H ms fuel i = moduleDigest H ms (r + 1) i := by
+    intro r
+    induction r using Nat.strongRecOn with
+    | _ r ih =>
+      intro i hri fuel hf
+      obtain ⟨f, rfl⟩ : ∃ f, fuel = f + 1 := ⟨fuel - 1, by omega⟩
+      unfold moduleDigest
+      cases hm : ms[i]? with
+      | none => rfl
+      | some m =>
+        simp only []
+        by_cases hl : m.isLocal = true
+        · simp only [hl, if_true]
+          have : mapExcept (moduleDigest H ms f) m.deps = mapExcept (moduleDigest H ms r) m.deps := by
+            apply mapExcept_congr
+            intro j hj
+            have hji : rank j < r := hri ▸ hacyc i m hm hl j hj
+            rw [ih (rank j) hji j rfl f (by omega), ih (rank j) hji j rfl r hji]
+          rw [this]
+        · have hl' : m.isLocal = false := by simpa using hl
+          simp only [hl']
+          rfl
+  intro i fuel hf
+  exact key (rank i) i rfl fuel hf
+
+/-- … in particular `ms.length + 1` — the fuel the driver uses — is enough for every module of an
+    acyclic set whose ranks stay below its size (the height of a node in an acyclic graph on n
+    nodes is < n), however the modules are numbered. -/
+theorem moduleDigest_fuel_length (H : Bytes → Digest) (ms : List Mod) (rank : Nat → Nat)
+    (hacyc : ∀ (i : Nat) (m : Mod), ms[i]? = some m → m.isLocal = true → ∀ j ∈ m.deps, rank j < rank i)
+    (hbound : ∀ i, rank i ≤ ms.length) :
+    ∀ i fuel, ms.length < fuel → moduleDigest H ms fuel i = moduleDigest H ms (ms.length + 1) i := by
+  intro i fuel hf
+  rw [moduleDigest_fuel_any_numbering H ms rank hacyc i fuel (by have := hbound i; omega),
+    moduleDigest_fuel_any_numbering H ms rank hacyc i (ms.length + 1) (by have := hbound i; omega)]
 
 /-- Module digests in a set do not depend on anything but the buckets' module files, the
     resolved dependency structure and the pinned digests: replacing every bucket by one that
@@ -278,6 +346,162 @@ theorem moduleDigest_congr (H : Bytes → Digest) (ms₁ ms₂ : List Mod)
         · rfl
         · exact digest_is_function_of_module_files H _ _ _ o1 o2 hs
       · exact digest_is_function_of_module_files H _ _ _ o1 o2 hs
+
+/-! ### Module sets: a change in a (transitive) local dependency reaches the dependant -/
+
+theorem NoCollision.mono {H : Bytes → Digest} {S T : List Bytes} (h : NoCollision H T) (hs : ∀ x ∈ S, x ∈ T) :
+    NoCollision H S := fun x hx y hy e => h x (hs x hx) y (hs y hy) e
+
+/-- The changed module itself: replacing the bucket of local module `k` by one with a different
+    module-file set changes the digest of `k` (its dependencies cannot depend on it, so their
+    digests stay the same). -/
+theorem moduleSet_changed_module (H : Bytes → Digest) (ms : List Mod) (k : Nat) (mk : Mod) (b' : Bucket)
+    (hk : ms[k]? = some mk) (hkl : mk.isLocal = true) (h1 : SetOK ms)
+    (hb : BucketOK b') (hn : NoNewline (filterModule b'))
+    (hdiff : ∃ e, ¬ (e ∈ filterModule mk.bucket ↔ e ∈ filterModule b'))
+    (hH : NoCollision H (inputsAt H ms k ++ inputsAt H (withBucket ms k mk b') k)) :
+    dg H ms k ≠ dg H (withBucket ms k mk b') k := by
+  have h2 := h1.withBucket k mk b' hk hb hn
+  have hk' := withBucket_get_self ms k mk b' hk
+  obtain ⟨e1, a1⟩ := dg_eq_moduleB5 H ms h1 k mk hk
+  obtain ⟨e2, a2⟩ := dg_eq_moduleB5 H _ h2 k _ hk'
+  have hkl' : k < ms.length := (List.getElem?_eq_some_iff.mp hk).1
+  have hD : depDigests H (withBucket ms k mk b') { mk with bucket := b' } = depDigests H ms mk := by
+    simp only [depDigests, hkl, if_true]
+    apply List.map_congr_left
+    intro l hl
+    have hlk := h1.topo k mk hk hkl l hl
+    have hml : ms[l]? = some ms[l] := List.getElem?_eq_getElem (by omega)
+    have := dg_unchanged H ms k mk b' h1 h2 l ms[l] hml (by omega) (by
+      by_cases hll : (ms[l]).isLocal = true
+      · right; intro hkin
+        have := h1.topo l ms[l] hml hll k hkin
+        omega
+      · left; simpa using hll)
+    simp only [val, this]
+  have i1 : inputsAt H ms k = b5Inputs H mk.bucket (depDigests H ms mk) := by simp [inputsAt, hk]
+  have i2 : inputsAt H (withBucket ms k mk b') k = b5Inputs H b' (depDigests H ms mk) := by
+    simp only [inputsAt, hk']; rw [hD]
+  rw [e1, e2, hD]
+  rw [i1, i2] at hH
+  exact digest_changes_module_files H mk.bucket b' _ _ (h1.bucket k mk hk).1 hb (h1.bucket k mk hk).2 hn a1 a1 hH
+    (Or.inl hdiff)
+
+/-- MODULE-SET SENSITIVITY.  In a module set as buf builds it (`SetOK`: acyclic, dependency
+    lists transitively closed and duplicate-free, well-formed buckets), changing the module-file
+    set of a local module `k` changes the digest of EVERY local module `i` that depends on it —
+    directly or transitively: `ModuleDeps()` lists transitive dependencies, so `k ∈ deps i` —
+    provided H does not collide on the byte strings hashed along the way (the digest
+    computations of `i` and of its dependencies, before and after the change).  The digests of
+    the other dependencies of `i` may change as well (those that depend on `k`); a counting
+    argument on the value `digest(k)` shows the dependency-digest multiset of `i` cannot stay the
+    same. -/
+theorem moduleSet_sensitive (H : Bytes → Digest) (ms : List Mod) (k : Nat) (mk : Mod) (b' : Bucket)
+    (hk : ms[k]? = some mk) (hkl : mk.isLocal = true) (h1 : SetOK ms)
+    (hb : BucketOK b') (hn : NoNewline (filterModule b'))
+    (hdiff : ∃ e, ¬ (e ∈ filterModule mk.bucket ↔ e ∈ filterModule b'))
+    (i : Nat) (mi : Mod) (hi : ms[i]? = some mi) (hil : mi.isLocal = true) (hik : k ∈ mi.deps)
+    (hH : NoCollision H ((i :: mi.deps).flatMap (inputsAt H ms) ++
+      (i :: mi.deps).flatMap (inputsAt H (withBucket ms k mk b')))) :
+    dg H ms i ≠ dg H (withBucket ms k mk b') i := by
+  have h2 := h1.withBucket k mk b' hk hb hn
+  have hki : k < i := h1.topo i mi hi hil k hik
+  have hilen : i < ms.length := (List.getElem?_eq_some_iff.mp hi).1
+  have hi' : (withBucket ms k mk b')[i]? = some mi := by
+    rw [withBucket_get_ne ms k mk b' (by omega)]; exact hi
+  have hk' := withBucket_get_self ms k mk b' hk
+  -- membership of the hashed inputs in the no-collision list
+  have inA : ∀ a ∈ i :: mi.deps, ∀ x ∈ inputsAt H ms a, x ∈ (i :: mi.deps).flatMap (inputsAt H ms) ++
+      (i :: mi.deps).flatMap (inputsAt H (withBucket ms k mk b')) :=
+    fun a ha x hx => List.mem_append_left _ (List.mem_flatMap.mpr ⟨a, ha, hx⟩)
+  have inB : ∀ a ∈ i :: mi.deps, ∀ x ∈ inputsAt H (withBucket ms k mk b') a, x ∈ (i :: mi.deps).flatMap (inputsAt H ms) ++
+      (i :: mi.deps).flatMap (inputsAt H (withBucket ms k mk b')) :=
+    fun a ha x hx => List.mem_append_right _ (List.mem_flatMap.mpr ⟨a, ha, hx⟩)
+  have kmem : k ∈ i :: mi.deps := List.mem_cons_of_mem _ hik
+  -- the changed module
+  have hbase : dg H ms k ≠ dg H (withBucket ms k mk b') k :=
+    moduleSet_changed_module H ms k mk b' hk hkl h1 hb hn hdiff (hH.mono (by
+      intro x hx
+      rcases List.mem_append.mp hx with hx | hx
+      · exact inA k kmem x hx
+      · exact inB k kmem x hx))
+  have hvk1 := (dg_eq_val H ms h1 k mk hk).1
+  have hvk2 := (dg_eq_val H _ h2 k _ hk').1
+  have hvalk : val H (withBucket ms k mk b') k ≠ val H ms k := by
+    intro e; apply hbase; rw [hvk1, hvk2, e]
+  intro heq
+  obtain ⟨e1, a1⟩ := dg_eq_moduleB5 H ms h1 i mi hi
+  obtain ⟨e2, a2⟩ := dg_eq_moduleB5 H _ h2 i mi hi'
+  rw [e1, e2] at heq
+  have ii1 : inputsAt H ms i = b5Inputs H mi.bucket (depDigests H ms mi) := by simp [inputsAt, hi]
+  have ii2 : inputsAt H (withBucket ms k mk b') i = b5Inputs H mi.bucket (depDigests H (withBucket ms k mk b') mi) := by
+    simp [inputsAt, hi']
+  have hperm := (digest_sensitive_module_files H mi.bucket mi.bucket _ _ (h1.bucket i mi hi).1 (h1.bucket i mi hi).1
+    (h1.bucket i mi hi).2 (h1.bucket i mi hi).2 a1 a2 (hH.mono (by
+      intro x hx
+      rcases List.mem_append.mp hx with hx | hx
+      · exact inA i List.mem_cons_self x (ii1 ▸ hx)
+      · exact inB i List.mem_cons_self x (ii2 ▸ hx))) heq).2
+  simp only [depDigests, hil, if_true] at hperm
+  have hcount := hperm.count_eq (val H ms k)
+  simp only [List.count, List.countP_map] at hcount
+  -- … but the value digest(k) occurs strictly less often after the change
+  have hlt : mi.deps.countP ((fun d => d == val H ms k) ∘ val H (withBucket ms k mk b')) <
+      mi.deps.countP ((fun d => d == val H ms k) ∘ val H ms) := by
+    apply countP_lt_of_imp
+    · intro j hj hv
+      simp only [Function.comp, beq_iff_eq] at hv ⊢
+      have hji := h1.topo i mi hi hil j hj
+      have hmj : ms[j]? = some ms[j] := List.getElem?_eq_getElem (by omega)
+      by_cases hjk : j = k
+      · subst hjk; exact absurd hv hvalk
+      · have hmj' : (withBucket ms k mk b')[j]? = some ms[j] := by
+          rw [withBucket_get_ne ms k mk b' hjk]; exact hmj
+        by_cases hdep : (ms[j]).isLocal = false ∨ k ∉ (ms[j]).deps
+        · have := dg_unchanged H ms k mk b' h1 h2 j ms[j] hmj hjk hdep
+          have hv' : val H ms j = val H (withBucket ms k mk b') j := by simp only [val, this]
+          rw [hv', hv]
+        · -- j is local and depends on k: its dependency list is strictly longer than k's
+          exfalso
+          have hjl : (ms[j]).isLocal = true := by
+            cases hb : (ms[j]).isLocal with
+            | true => rfl
+            | false => exact absurd (Or.inl hb) hdep
+          have hkj : k ∈ (ms[j]).deps := by
+            apply Classical.byContradiction; intro hnot; exact hdep (Or.inr hnot)
+          obtain ⟨f1, b1⟩ := dg_eq_moduleB5 H _ h2 j ms[j] hmj'
+          obtain ⟨f2, b2⟩ := dg_eq_moduleB5 H ms h1 k mk hk
+          have hdg : dg H (withBucket ms k mk b') j = dg H ms k := by
+            rw [(dg_eq_val H _ h2 j ms[j] hmj').1, hvk1, hv]
+          rw [f1, f2] at hdg
+          have jmem : j ∈ i :: mi.deps := List.mem_cons_of_mem _ hj
+          have ij : inputsAt H (withBucket ms k mk b') j = b5Inputs H (ms[j]).bucket (depDigests H (withBucket ms k mk b') ms[j]) := by
+            simp [inputsAt, hmj']
+          have ik : inputsAt H ms k = b5Inputs H mk.bucket (depDigests H ms mk) := by simp [inputsAt, hk]
+          have hp := (digest_sensitive_module_files H (ms[j]).bucket mk.bucket _ _ (h1.bucket j ms[j] hmj).1 (h1.bucket k mk hk).1
+            (h1.bucket j ms[j] hmj).2 (h1.bucket k mk hk).2 b1 b2 (hH.mono (by
+              intro x hx
+              rcases List.mem_append.mp hx with hx | hx
+              · exact inB j jmem x (ij ▸ hx)
+              · exact inA k kmem x (ik ▸ hx))) hdg).2
+          have hlen := hp.length_eq
+          simp only [depDigests, hjl, hkl, if_true, List.length_map] at hlen
+          have hsub : (k :: mk.deps) ⊆ (ms[j]).deps := by
+            intro x hx
+            rcases List.mem_cons.mp hx with rfl | hx
+            · exact hkj
+            · exact h1.closed j ms[j] hmj hjl k hkj mk hk hkl x hx
+          have hnd : (k :: mk.deps).Nodup := by
+            refine List.nodup_cons.mpr ⟨?_, h1.nodup k mk hk⟩
+            intro hkk
+            have := h1.topo k mk hk hkl k hkk
+            omega
+          have := hnd.length_le_of_subset hsub
+          simp only [List.length_cons] at this
+          omega
+    · exact ⟨k, hik, by simp [Function.comp], by
+        simp only [Function.comp, beq_eq_false_iff_ne, ne_eq]; exact hvalk⟩
+  omega
 
 /-! ### b4 -/
 
@@ -323,6 +547,72 @@ theorem b4_is_function_of_module_files (H : Bytes → Digest) (b₁ b₂ : Bucke
           | false => exact absurd ((hasDupPath_false_iff _).mp hh) hnd2
         simp only [newManifest, e1, e2, if_true]
     rw [hman]
+
+/-- b4 SENSITIVITY, analogous to `digest_sensitive`: a b4 digest covers the module files and the
+    v1 buf.yaml / buf.lock object data (`b4Entries`).  If H does not collide on what the two
+    computations hash (`b4Inputs`: the file contents, the object data, the two manifest texts) and
+    no covered path contains U+000A, two successful computations with the same digest cover the
+    same set of (path, content) pairs.  Contrapositive: any changed byte or path of a module
+    file, any changed, added or removed buf.yaml / buf.lock changes the b4 digest. -/
+theorem b4_sensitive (H : Bytes → Digest) (b₁ b₂ : Bucket) (y₁ l₁ y₂ l₂ : Option ObjectData)
+    (h1 : BucketOK b₁) (h2 : BucketOK b₂)
+    (n1 : NoNewline (b4Entries b₁ y₁ l₁)) (n2 : NoNewline (b4Entries b₂ y₂ l₂))
+    (hH : NoCollision H (b4Inputs H b₁ y₁ l₁ ++ b4Inputs H b₂ y₂ l₂))
+    (d : MDigest) (e1 : moduleB4 H b₁ y₁ l₁ = .ok d) (e2 : moduleB4 H b₂ y₂ l₂ = .ok d) :
+    ∀ e, e ∈ b4Entries b₁ y₁ l₁ ↔ e ∈ b4Entries b₂ y₂ l₂ := by
+  obtain ⟨nd1, v1, hd1, t1⟩ := moduleB4_eq_ok H b₁ y₁ l₁ h1 d e1
+  obtain ⟨nd2, v2, hd2, t2⟩ := moduleB4_eq_ok H b₂ y₂ l₂ h2 d e2
+  have in1 : ∀ x, x ∈ b4Inputs H b₁ y₁ l₁ → x ∈ b4Inputs H b₁ y₁ l₁ ++ b4Inputs H b₂ y₂ l₂ := fun x hx => List.mem_append_left _ hx
+  have in2 : ∀ x, x ∈ b4Inputs H b₂ y₂ l₂ → x ∈ b4Inputs H b₁ y₁ l₁ ++ b4Inputs H b₂ y₂ l₂ := fun x hx => List.mem_append_right _ hx
+  -- contents and object data are hashed inputs
+  have mC : ∀ (b : Bucket) (y l : Option ObjectData), ∀ e ∈ b4Entries b y l, e.2 ∈ b4Inputs H b y l := by
+    intro b y l e he
+    unfold b4Inputs; rw [filterModule_idem]
+    rcases List.mem_append.mp he with he | he
+    · exact List.mem_append_left _ (List.mem_append_left _ (List.mem_map.mpr ⟨e, he, rfl⟩))
+    · refine List.mem_append_left _ (List.mem_append_right _ ?_)
+      simp only [objEntries, List.mem_filterMap] at he ⊢
+      obtain ⟨o, ho, hoe⟩ := he
+      refine ⟨o, ho, ?_⟩
+      cases o with
+      | none => cases hoe
+      | some od => simp only [Option.map_some, Option.some.injEq] at hoe ⊢; rw [← hoe]
+  have mT1 : utf8 (manifestString (sortBy pathLe (nodesOf H (b4Entries b₁ y₁ l₁)))) ∈ b4Inputs H b₁ y₁ l₁ := by
+    unfold b4Inputs; rw [t1]; simp
+  have mT2 : utf8 (manifestString (sortBy pathLe (nodesOf H (b4Entries b₂ y₂ l₂)))) ∈ b4Inputs H b₂ y₂ l₂ := by
+    unfold b4Inputs; rw [t2]; simp
+  -- step 1: the manifest texts are equal
+  have hHeq : H (utf8 (manifestString (sortBy pathLe (nodesOf H (b4Entries b₁ y₁ l₁))))) =
+      H (utf8 (manifestString (sortBy pathLe (nodesOf H (b4Entries b₂ y₂ l₂))))) := by
+    have := hd1.symm.trans hd2
+    exact congrArg MDigest.digest this
+  have htext := utf8_inj (hH _ (in1 _ mT1) _ (in2 _ mT2) hHeq)
+  -- step 2: the manifests are equal
+  have nodeProps : ∀ (es : List Entry), (∀ e ∈ es, validateNodePath e.1 = .ok ()) → NoNewline es →
+      ∀ n ∈ sortBy pathLe (nodesOf H es), validateNodePath n.path = .ok () ∧ '\n' ∉ n.path := by
+    intro es hv hn n hm
+    have hm' := (sortBy_perm pathLe _).subset hm
+    rcases List.mem_map.mp hm' with ⟨e, he, rfl⟩
+    exact ⟨hv e he, hn e he⟩
+  have hman := manifestString_inj (sortBy_canonical _ nd1) (sortBy_canonical _ nd2)
+    (fun n hn => (nodeProps _ v1 n1 n hn).1) (fun n hn => (nodeProps _ v2 n2 n hn).1)
+    (fun n hn => (nodeProps _ v1 n1 n hn).2) (fun n hn => (nodeProps _ v2 n2 n hn).2) htext
+  have hnodes : (nodesOf H (b4Entries b₁ y₁ l₁)).Perm (nodesOf H (b4Entries b₂ y₂ l₂)) :=
+    (sortBy_perm pathLe _).symm.trans (hman ▸ sortBy_perm pathLe _)
+  -- step 3: node sets equal ⇒ entry sets equal
+  have half : ∀ (x y : List Entry), (nodesOf H x).Perm (nodesOf H y) →
+      (∀ e ∈ x, ∀ e' ∈ y, H e.2 = H e'.2 → e.2 = e'.2) → ∀ e, e ∈ x → e ∈ y := by
+    intro x y hp hc e he
+    have : (⟨e.1, H e.2⟩ : FileNode) ∈ nodesOf H y := hp.subset (List.mem_map.mpr ⟨e, he, rfl⟩)
+    rcases List.mem_map.mp this with ⟨e', he', hfe⟩
+    have hp' : e'.1 = e.1 := congrArg FileNode.path hfe
+    have hd' : H e'.2 = H e.2 := congrArg FileNode.digest hfe
+    have hc' := hc e he e' he' hd'.symm
+    have : e' = e := Prod.ext hp' hc'.symm
+    exact this ▸ he'
+  intro e
+  exact ⟨half _ _ hnodes (fun e he e' he' hh => hH _ (in1 _ (mC _ _ _ e he)) _ (in2 _ (mC _ _ _ e' he')) hh) e,
+    half _ _ hnodes.symm (fun e he e' he' hh => hH _ (in2 _ (mC _ _ _ e he)) _ (in1 _ (mC _ _ _ e' he')) hh) e⟩
 
 /-! ### Non-vacuity and recorded counterexamples -/
 
@@ -396,5 +686,113 @@ theorem newline_collision_counterexample :
     moduleB5 toyH nlOne [] = moduleB5 toyH nlTwo [] := by
   refine ⟨⟨by decide, by decide⟩, ⟨by decide, by decide⟩, by unfold NoNewline; decide,
     by unfold NoCollision; decide, by decide, by decide, by decide⟩
+
+
+def exDep1 : MDigest := ⟨.b5, toyH [7]⟩
+def exDep2 : MDigest := ⟨.b5, toyH [8]⟩
+
+set_option maxRecDepth 1000000 in
+-- `digest_changes` with NON-EMPTY dependency lists: same bucket, one dependency digest replaced
+example : BucketOK exA ∧ NoNewline exA ∧
+    [exDep1, exDep2].all (fun d => d.type = .b5) = true ∧ [exDep1, exDep1].all (fun d => d.type = .b5) = true ∧
+    NoCollision toyH (b5Inputs toyH exA [exDep1, exDep2] ++ b5Inputs toyH exA [exDep1, exDep1]) ∧
+    ¬ [exDep1, exDep2].Perm [exDep1, exDep1] := by
+  refine ⟨⟨by decide, by decide⟩, by unfold NoNewline; decide, by decide, by decide, by unfold NoCollision; decide, ?_⟩
+  intro hp
+  have := hp.count_eq exDep2
+  revert this; decide
+
+def exC : Bucket := [("y.bin".toList, [7, 7]), ("README.md".toList, []), ("a.proto".toList, [1])]
+
+set_option maxRecDepth 1000000 in
+-- the hypotheses of `digest_is_function_of_module_files` hold for two DIFFERENT buckets (other
+-- enumeration order, other non-module files) with the same module files
+example : BucketOK exA ∧ BucketOK exC ∧ exA ≠ exC ∧ ¬ exA.Perm exC ∧
+    (∀ e, e ∈ filterModule exA ↔ e ∈ filterModule exC) := by
+  refine ⟨⟨by decide, by decide⟩, ⟨by decide, by decide⟩, by decide, ?_, ?_⟩
+  · intro hp
+    have := hp.subset (show ("x.txt".toList, [9]) ∈ exA by decide)
+    revert this; decide
+  · have h : ∀ e, e ∈ filterModule exA ↔ e ∈ [("a.proto".toList, ([1] : Bytes)), ("README.md".toList, [])] := by
+      intro e; rw [show filterModule exA = [("a.proto".toList, [1]), ("README.md".toList, [])] by decide]
+    have h2 : ∀ e, e ∈ filterModule exC ↔ e ∈ [("README.md".toList, ([] : Bytes)), ("a.proto".toList, [1])] := by
+      intro e; rw [show filterModule exC = [("README.md".toList, []), ("a.proto".toList, [1])] by decide]
+    intro e; rw [h, h2]; simp only [List.mem_cons, List.not_mem_nil, or_false]; exact Or.comm
+
+
+def exK : Mod := { bucket := [("k.proto".toList, [1])], isLocal := true, deps := [], pinned := [] }
+def exJ : Mod := { bucket := [("j.proto".toList, [2])], isLocal := true, deps := [0], pinned := [] }
+def exI : Mod := { bucket := [("i.proto".toList, [3])], isLocal := true, deps := [1, 0], pinned := [] }
+def exMs : List Mod := [exK, exJ, exI]
+def exK2 : Bucket := [("k.proto".toList, [9])]
+
+private theorem exMs_get (i : Nat) (m : Mod) (h : exMs[i]? = some m) :
+    (i = 0 ∧ m = exK) ∨ (i = 1 ∧ m = exJ) ∨ (i = 2 ∧ m = exI) := by
+  match i, h with
+  | 0, h => simp [exMs] at h; exact Or.inl ⟨rfl, h.symm⟩
+  | 1, h => simp [exMs] at h; exact Or.inr (Or.inl ⟨rfl, h.symm⟩)
+  | 2, h => simp [exMs] at h; exact Or.inr (Or.inr ⟨rfl, h.symm⟩)
+  | n + 3, h => simp [exMs] at h
+
+set_option maxRecDepth 1000000 in
+private theorem exMs_ok : SetOK exMs := by
+  constructor
+  · intro i m hm hl j hj
+    rcases exMs_get i m hm with ⟨rfl, rfl⟩ | ⟨rfl, rfl⟩ | ⟨rfl, rfl⟩ <;> revert j <;> decide
+  · intro i m hm hl j hj mj hmj hlj l hl'
+    rcases exMs_get i m hm with ⟨rfl, rfl⟩ | ⟨rfl, rfl⟩ | ⟨rfl, rfl⟩ <;>
+      rcases exMs_get j mj hmj with ⟨rfl, rfl⟩ | ⟨rfl, rfl⟩ | ⟨rfl, rfl⟩ <;>
+      first | exact absurd hj (by decide) | (revert l; decide)
+  · intro i m hm
+    rcases exMs_get i m hm with ⟨rfl, rfl⟩ | ⟨rfl, rfl⟩ | ⟨rfl, rfl⟩ <;> decide
+  · intro i m hm
+    rcases exMs_get i m hm with ⟨rfl, rfl⟩ | ⟨rfl, rfl⟩ | ⟨rfl, rfl⟩ <;>
+      exact ⟨⟨by decide, by decide⟩, by unfold NoNewline; decide⟩
+  · intro i m hm
+    rcases exMs_get i m hm with ⟨rfl, rfl⟩ | ⟨rfl, rfl⟩ | ⟨rfl, rfl⟩ <;> decide
+
+set_option maxRecDepth 1000000 in
+set_option maxHeartbeats 4000000 in
+example : exMs[0]? = some exK ∧ exK.isLocal = true ∧ SetOK exMs ∧ BucketOK exK2 ∧ NoNewline (filterModule exK2) ∧
+    (∃ e, ¬ (e ∈ filterModule exK.bucket ↔ e ∈ filterModule exK2)) ∧
+    exMs[2]? = some exI ∧ exI.isLocal = true ∧ 0 ∈ exI.deps ∧
+    NoCollision toyH ((2 :: exI.deps).flatMap (inputsAt toyH exMs) ++
+      (2 :: exI.deps).flatMap (inputsAt toyH (withBucket exMs 0 exK exK2))) := by
+  refine ⟨rfl, rfl, exMs_ok, ⟨by decide, by decide⟩, by unfold NoNewline; decide,
+    ⟨("k.proto".toList, [1]), by decide⟩, rfl, rfl, by decide, by unfold NoCollision; decide⟩
+
+def exYaml : Option ObjectData := some ⟨"buf.yaml".toList, [1, 2]⟩
+
+set_option maxRecDepth 1000000 in
+-- the hypotheses of `b4_sensitive` are satisfiable: two different buckets with the same module
+-- files and the same v1 buf.yaml have the same (successful) b4 digest, no collision among what is hashed
+example : BucketOK exA ∧ BucketOK exC ∧ NoNewline (b4Entries exA exYaml none) ∧ NoNewline (b4Entries exC exYaml none) ∧
+    NoCollision toyH (b4Inputs toyH exA exYaml none ++ b4Inputs toyH exC exYaml none) ∧
+    (∃ d, moduleB4 toyH exA exYaml none = .ok d ∧ moduleB4 toyH exC exYaml none = .ok d) := by
+  refine ⟨⟨by decide, by decide⟩, ⟨by decide, by decide⟩, by unfold NoNewline; decide, by unfold NoNewline; decide,
+    by unfold NoCollision; decide, ?_⟩
+  have h : moduleB4 toyH exA exYaml none = moduleB4 toyH exC exYaml none :=
+    b4_is_function_of_module_files toyH exA exC exYaml none ⟨by decide, by decide⟩ ⟨by decide, by decide⟩ (by
+      have h1 : ∀ e, e ∈ filterModule exA ↔ e ∈ [("a.proto".toList, ([1] : Bytes)), ("README.md".toList, [])] := by
+        intro e; rw [show filterModule exA = [("a.proto".toList, [1]), ("README.md".toList, [])] by decide]
+      have h2 : ∀ e, e ∈ filterModule exC ↔ e ∈ [("README.md".toList, ([] : Bytes)), ("a.proto".toList, [1])] := by
+        intro e; rw [show filterModule exC = [("README.md".toList, []), ("a.proto".toList, [1])] by decide]
+      intro e; rw [h1, h2]; simp only [List.mem_cons, List.not_mem_nil, or_false]; exact Or.comm)
+  have hok : (moduleB4 toyH exA exYaml none).toBool = true := by decide
+  cases hd : moduleB4 toyH exA exYaml none with
+  | ok d => exact ⟨d, rfl, by rw [← h, hd]⟩
+  | error e => rw [hd] at hok; cases hok
+
+-- any numbering: an acyclic set numbered against the dependency direction (module 0 depends on 1,
+-- 1 on 2) has the rank function `2 - i`
+example : ∀ (i : Nat) (m : Mod), ([⟨[], true, [1], []⟩, ⟨[], true, [2], []⟩, ⟨[], true, [], []⟩] : List Mod)[i]? = some m →
+    m.isLocal = true → ∀ j ∈ m.deps, (fun n => 2 - n) j < (fun n => 2 - n) i := by
+  intro i m hm _ j hj
+  match i, hm with
+  | 0, hm => simp at hm; subst hm; simp at hj; subst hj; decide
+  | 1, hm => simp at hm; subst hm; simp at hj; subst hj; decide
+  | 2, hm => simp at hm; subst hm; simp at hj
+  | n + 3, hm => simp at hm
+
 
 end BufProofs.C08
